@@ -656,4 +656,172 @@ def build_extra():
          modifies=[], raises={}, bounded="BOUNDED: at most 2 source devices, caller paths of length 0..2")
     C.only_verify = ["BallSave._schedule_balls", "OutgoingBallsHandler.find_available_ball_in_path",
                      "BallDevice.find_one_available_ball"]
-    return [C]
+    return [C, incoming_set()]
+
+
+IBH = "mpf/devices/ball_device/incoming_balls_handler.py"
+
+
+def incoming_set():
+    """the ball in transit between two devices (IncomingBall) and the target's bookkeeping of such balls: a ball in
+    transit ends in exactly one of `arrived` / `lost`, is taken off the target's list exactly once, its eject is
+    confirmed to the source exactly once, and an arrival at the target is matched to the first ball that can arrive
+    (else reported as unexpected)"""
+    C = ContractSet("C05i", "balls in transit: one outcome, one confirmation, one removal")
+    C.strings = False
+    A = "asyncio.Future (A-ASYNCIO): done / cancelled flags; set_result on a done future raises InvalidStateError"
+    C.exc("InvalidStateError", "Exception")
+    C.cls("Fut", fields=dict(is_done=Bool, is_cancelled=Bool))
+
+    def new_fut(I, nm, done=False):
+        o = Obj("Fut", ObjS("Fut", is_done=Bool, is_cancelled=Bool), I.fresh_name(nm))
+        o.fresh = True
+        I.heap.data[(o, "is_done")] = VBool(done)
+        I.heap.data[(o, "is_cancelled")] = VBool(False)
+        return VObj(o)
+    C.ext("Fut.done", model=lambda I, env, a, k: I.read_field(env["self"].ref, "is_done"), trusted_reason=A)
+    C.ext("Fut.cancelled", model=lambda I, env, a, k: I.read_field(env["self"].ref, "is_cancelled"), trusted_reason=A)
+
+    def fut_cancel(I, env, a, k):
+        d = I.truth(I.read_field(env["self"].ref, "is_done"))
+        if not I.ctx.branch(d):
+            I.write_field(env["self"].ref, "is_done", VBool(True))
+            I.write_field(env["self"].ref, "is_cancelled", VBool(True))
+        emit(I, "future.cancel", fut=env["self"].ref)
+        return VBool(True)
+    C.ext("Fut.cancel", model=fut_cancel, trusted_reason=A)
+
+    def fut_set_result(I, env, a, k):
+        if I.ctx.branch(I.truth(I.read_field(env["self"].ref, "is_done"))):
+            I.raise_("InvalidStateError", "invalid state")
+        I.write_field(env["self"].ref, "is_done", VBool(True))
+        emit(I, "future.set_result", fut=env["self"].ref)
+        return NONE
+    C.ext("Fut.set_result", model=fut_set_result, trusted_reason=A)
+    C.globals["asyncio"] = VFn("module", name="asyncio")
+    C.globals["asyncio.ensure_future"] = VFn("model", model=lambda I, a, k: new_fut(I, "timeout_task"))
+    C.globals["asyncio.sleep"] = VFn("model", model=lambda I, a, k: VOpaque("Any", z3.Const(I.fresh_name("sleep"),
+                                                                                            usort("Any"))))
+    C.cls("TargetDev", fields=dict(playfield=Bool))
+    C.ext("TargetDev.is_playfield", model=lambda I, env, a, k: I.read_field(env["self"].ref, "playfield"),
+          trusted_reason="BallDevice / Playfield.is_playfield")
+    C.ext("TargetDev.remove_incoming_ball",
+          model=lambda I, env, a, k: (emit(I, "target.remove_incoming_ball", ball=I.force(a[0]).ref), NONE)[1],
+          trusted_reason="IncomingBallsHandler.remove_incoming_ball of the target (verified below)")
+    C.cls("TimeoutMap", fields={})
+    C.ext("TimeoutMap.__getitem__", model=lambda I, env, a, k: VInt(z3.Int(I.fresh_name("missing_timeout_ms"))),
+          trusted_reason="validated config: a ball_missing_timeouts entry (ms) exists for every eject target")
+    C.cls("SourceDev", fields=dict(config=Rec(ball_missing_timeouts=ObjS("TimeoutMap"))))
+    FUT = ObjS("Fut", is_done=Bool, is_cancelled=Bool)
+    C.cls("IncomingBall", file=IBH, fields=dict(
+        _timeout_future=FUT, _confirm_future=FUT, _can_skip_future=FUT, _source=ObjS("SourceDev"),
+        _target=ObjS("TargetDev"), _external_confirm_future=Opt(FUT),
+        _state=Union(Const("left_device"), Const("arrived"), Const("lost"))),
+        invariants=[("I1: the eject is confirmed to the source at most once: while the ball is in transit and no "
+                     "external confirmation has completed, the confirm future is unresolved",
+                     "implies(self._state == 'left_device' and (self._external_confirm_future is None or not "
+                     "self._external_confirm_future.is_done), not self._confirm_future.is_done)")])
+    C.helpers["n_removed"] = lambda I: VInt(len(events_named(I, "target.remove_incoming_ball")))
+    C.helpers["n_confirmed"] = lambda I: VInt(len([e for e in events_named(I, "future.set_result") if e.args["fut"] is
+                                                  I.force(I.read_field(I.frames[0].env["self"].ref, "_confirm_future",
+                                                                       heap=I.old_heap)).ref]))
+    C.trace_helpers = {"n_removed", "n_confirmed", "arrival_matched", "n_expected", "n_unexpected"}
+    TRANSIT = "old(self._state) == 'left_device'"
+    C.fn("IncomingBall.can_arrive", is_property=True, result=Bool,
+         ensures=["result == (self._state == 'left_device' and (self._external_confirm_future is None or "
+                  "self._external_confirm_future.is_done))"], modifies=[], raises={})
+    IMODS = ["self._state", "self._timeout_future.is_done", "self._timeout_future.is_cancelled",
+             "self._external_confirm_future.is_done", "self._external_confirm_future.is_cancelled",
+             "self._confirm_future.is_done", "self._timeout_future"]
+    C.fn("IncomingBall.did_not_arrive",
+         ensures=[("IB1: a ball in transit that did not arrive becomes `lost`, its timers are cancelled and it is taken "
+                   "off the target's list exactly once; a ball that already arrived or was lost is left alone",
+                   "(self._state == 'lost' and n_removed() == 1 and self._timeout_future.is_done) if " + TRANSIT +
+                   " else (self._state == old(self._state) and n_removed() == 0)"),
+                  ("the source gets no confirmation from a lost ball", "n_confirmed() == 0")],
+         modifies=IMODS, raises={})
+    C.fn("IncomingBall.ball_arrived",
+         ensures=[("IB2: an arrival ends the transit exactly once: state `arrived`, off the target's list once, timeout "
+                   "cancelled; the source is confirmed here iff no external confirmation is used (it confirms itself)",
+                   "(self._state == 'arrived' and n_removed() == 1 and self._timeout_future.is_done and "
+                   "n_confirmed() == (1 if self._external_confirm_future is None else 0)) if " + TRANSIT +
+                   " else (self._state == old(self._state) and n_removed() == 0 and n_confirmed() == 0)")],
+         modifies=IMODS, raises={})
+    C.fn("IncomingBall._external_confirm", params=dict(future=FUT),
+         requires=[("done callback of the external confirmation: it runs once, when that future is done",
+                    "future.is_done and not self._confirm_future.is_done")],
+         ensures=[("IB3: a cancelled external confirmation confirms nothing; a real one confirms the eject to the source "
+                   "exactly once and (for a device target) re-arms the timeout for the way to the target",
+                   "n_confirmed() == (0 if future.is_cancelled else 1)")],
+         modifies=IMODS, raises={}, no_inv=True)
+
+    # ---- the target's list of balls in transit
+    NIB = common.bound(2, 3)
+    C.cls("BallDeviceStateHandler", fields={})
+    C.cls("AsyncEvent", fields=dict(flag=Bool))
+    C.ext("AsyncEvent.set", model=lambda I, env, a, k: (I.write_field(env["self"].ref, "flag", VBool(True)), NONE)[1],
+          trusted_reason="asyncio.Event")
+    C.ext("AsyncEvent.clear", model=lambda I, env, a, k: (I.write_field(env["self"].ref, "flag", VBool(False)), NONE)[1],
+          trusted_reason="asyncio.Event")
+    C.cls("BallInTransit", fields=dict(can_arrive=Bool, source=Opaque("Any")))
+
+    def transit_arrived(I, env, a, k):
+        emit(I, "transit.ball_arrived", ball=env["self"].ref)
+        return NONE
+    C.ext("BallInTransit.ball_arrived", model=transit_arrived,
+          trusted_reason="IncomingBall.ball_arrived (IB2 above): ends the transit, takes the ball off the list")
+    C.ext("BallInTransit.wait_for_can_skip", model=lambda I, env, a, k: new_fut(I, "can_skip", done=bool(I.ctx.fork(2))),
+          trusted_reason="IncomingBall.wait_for_can_skip: shielded future")
+    C.ext("Fut.add_done_callback", model=lambda I, env, a, k: (emit(I, "add_done_callback"), NONE)[1], trusted_reason=A)
+    C.cls("OutgoingI", fields={})
+    C.ext("OutgoingI.add_incoming_ball_which_may_skip", model=common.noop, trusted_reason="mechanical-eject skip tracking")
+    C.ext("OutgoingI.remove_incoming_ball_which_may_skip",
+          model=lambda I, env, a, k: (emit(I, "remove_may_skip"), NONE)[1], trusted_reason="mechanical-eject skip tracking")
+    C.cls("DeviceI", fields=dict(config=Rec(mechanical_eject=Bool), outgoing_balls_handler=ObjS("OutgoingI")))
+    C.ext("DeviceI.expected_ball_received", model=lambda I, env, a, k: (emit(I, "expected_ball_received"), NONE)[1],
+          trusted_reason="BallDevice.expected_ball_received: the ball belongs to a running eject towards this device")
+    C.ext("DeviceI.unexpected_ball_received", model=lambda I, env, a, k: (emit(I, "unexpected_ball_received"), NONE)[1],
+          trusted_reason="BallDevice.unexpected_ball_received: a ball nobody announced (captured from the playfield)")
+
+    def transit_list(I, name):
+        return I.new_list([I.fresh(ObjS("BallInTransit"), "%s[%d]" % (name, i)) for i in range(I.ctx.fork(NIB + 1))], name)
+    C.cls("IncomingBallsHandler", file=IBH, bases=["BallDeviceStateHandler"], fields=dict(
+        _incoming_balls=Init(transit_list), _has_incoming_balls=ObjS("AsyncEvent"),
+        _has_no_incoming_balls=ObjS("AsyncEvent"), ball_device=ObjS("DeviceI")))
+    C.helpers["n_expected"] = lambda I: VInt(len(events_named(I, "expected_ball_received")))
+    C.helpers["n_unexpected"] = lambda I: VInt(len(events_named(I, "unexpected_ball_received")))
+
+    def arrival_matched(I):
+        """the arrival is given to the FIRST ball in the list that can arrive (and to no other); if none can, the ball
+        is reported as unexpected"""
+        this = I.frames[0].env["self"].ref
+        balls = [I.force(b).ref for b in I.container(I.force(I.read_field(this, "_incoming_balls", heap=I.old_heap)).ref,
+                                                     heap=I.old_heap).items]
+        got = [e.args["ball"] for e in events_named(I, "transit.ball_arrived")]
+        nexp, nun = len(events_named(I, "expected_ball_received")), len(events_named(I, "unexpected_ball_received"))
+        cans = [I.truth(I.read_field(b, "can_arrive", heap=I.old_heap)) for b in balls]
+        cases = []
+        for i, b in enumerate(balls):
+            first = z3.And([z3.Not(c) for c in cans[:i]] + [cans[i]])
+            cases.append(z3.And(first, z3.BoolVal(got == [b] and nexp == 1 and nun == 0)))
+        none = z3.And([z3.Not(c) for c in cans] + [z3.BoolVal(True)])
+        cases.append(z3.And(none, z3.BoolVal(got == [] and nexp == 0 and nun == 1)))
+        return VBool(z3.Or(cases))
+    C.helpers["arrival_matched"] = arrival_matched
+    C.fn("IncomingBallsHandler.ball_arrived",
+         loops={0: LoopSpec(invariant=[], unroll=True)},
+         ensures=[("IH1: every arrival is accounted for exactly once: matched to the first ball in transit that can arrive "
+                   "(then the device is told an expected ball came) or else reported as unexpected", "arrival_matched()")],
+         modifies=[], raises={}, bounded="BOUNDED: at most %d balls in transit" % NIB)
+    C.fn("IncomingBallsHandler.add_incoming_ball", params=dict(incoming_ball=ObjS("BallInTransit")),
+         ensures=[("IH2: the ball is appended (arrival order = list order) and the has-incoming flags say so",
+                   "len(self._incoming_balls) == old(len(self._incoming_balls)) + 1 and "
+                   "self._incoming_balls[-1] is incoming_ball and self._has_incoming_balls.flag and "
+                   "not self._has_no_incoming_balls.flag")],
+         modifies=["self._incoming_balls", "self._has_incoming_balls.flag", "self._has_no_incoming_balls.flag"],
+         raises={}, bounded="BOUNDED: at most %d balls in transit" % NIB)
+    C.fn("IncomingBallsHandler.get_num_incoming_balls", result=Int,
+         ensures=["result == len(self._incoming_balls)"], modifies=[], raises={})
+    C.assume("IncomingBallsHandler._run (timeouts of balls in transit) and remove_incoming_ball's ValueError for a ball "
+             "that is not in the list are not under contract")
+    return C
